@@ -46,6 +46,10 @@ type Analysis struct {
 	ncalls map[*FuncInfo]int
 	// noPureInline: pure functions whose inlining gives nothing (no counting terms)
 	noPureInline map[*FuncInfo]bool
+	// pseudo-variables for fields of local struct values (walk.go localFieldVar)
+	fieldVars     map[[2]*types.Var]*types.Var
+	fieldVarsOf   map[*types.Var][]*types.Var
+	fieldVarField map[*types.Var]*types.Var
 	// constant dispatch tables (devirt.go)
 	tables   map[string]*dispatchTable
 	entryOf  map[string]*tblEntry
@@ -291,6 +295,16 @@ func isLocalLvalue(info *types.Info, e ast.Expr) bool {
 		// holding a fresh make()/literal. We keep it simple: local root ⇒ local.
 		return isLocalRoot(info, x.X)
 	case *ast.SelectorExpr:
+		// a field of a local variable of struct type (a value, not a pointer): the write stays in the function
+		if id, ok := ast.Unparen(x.X).(*ast.Ident); ok {
+			if v, ok := info.Uses[id].(*types.Var); ok && !v.IsField() && v.Pkg() != nil && v.Parent() != v.Pkg().Scope() {
+				if _, isStruct := v.Type().Underlying().(*types.Struct); isStruct {
+					if s := info.Selections[x]; s != nil && s.Kind() == types.FieldVal && !s.Indirect() {
+						return true
+					}
+				}
+			}
+		}
 		return false
 	}
 	return false
@@ -585,6 +599,12 @@ func retMode(fn *FuncInfo) string {
 	if sig.Results().Len() == 2 && sig.Results().At(1).Type().String() == "error" {
 		return "valerr"
 	}
+	// (value, ok bool): classified by the constant second result
+	if sig.Results().Len() == 2 {
+		if b, ok := sig.Results().At(1).Type().Underlying().(*types.Basic); ok && b.Kind() == types.Bool {
+			return "valok"
+		}
+	}
 	if sig.Results().Len() == 1 {
 		switch sig.Results().At(0).Type().Underlying().(type) {
 		case *types.Interface, *types.Pointer:
@@ -622,6 +642,11 @@ func classifyRet(mode string, e *State) string {
 	case "ptr":
 		if len(e.Ret) == 1 {
 			return cls(e.Ret[0])
+		}
+		return "?"
+	case "valok":
+		if len(e.Ret) == 2 && e.Ret[1] != nil && e.Ret[1].K == KConst && (e.Ret[1].S == "true" || e.Ret[1].S == "false") {
+			return "_," + e.Ret[1].S
 		}
 		return "?"
 	case "valerr":
@@ -758,6 +783,8 @@ func (a *Analysis) computeSummary(fn *FuncInfo, ctx []Lit) *Summary {
 	if q, ok := classes["?"]; ok && mode != "" {
 		var defs []string
 		switch mode {
+		case "valok":
+			defs = []string{"_,true", "_,false"}
 		case "bool":
 			defs = []string{"true", "false"}
 		case "ptr":
